@@ -844,25 +844,48 @@ func checkProxyAssertions(w *World, r *Report, rule string) {
 				}
 				recvT := fn.Signature.Recv().Type()
 				construct := "unchecked assertion to " + iface + " in " + fnShort(fn)
-				// every composite construction of recvT must be dominated by a successful comma-ok assertion to iface
+				// every construction of recvT: on every path through it, a successful comma-ok assertion to iface was taken
 				bad := ""
 				nCons := 0
 				for _, g := range w.ModFns {
+					var cons []ssa.Instruction
 					for _, gb := range g.Blocks {
 						for _, gi := range gb.Instrs {
-							var made types.Type
-							switch x := gi.(type) {
-							case *ssa.MakeInterface:
-								made = x.X.Type()
-							}
-							if made == nil || !types.Identical(made, recvT) {
-								continue
-							}
-							nCons++
-							if !dominatedByOkAssert(gi, iface) {
-								bad = "a " + shortType(recvT) + " is constructed at " + w.instrPos(gi) + " without a successful check that the wrapped value implements " + iface
+							if mi, ok := gi.(*ssa.MakeInterface); ok && types.Identical(mi.X.Type(), recvT) {
+								cons = append(cons, gi)
 							}
 						}
+					}
+					if len(cons) == 0 {
+						continue
+					}
+					nCons += len(cons)
+					_, over := w.enumPaths(g, pathOpts{}, func(p *Path) {
+						for _, ev := range p.Events {
+							isCons := false
+							for _, c := range cons {
+								if ev.In == c {
+									isCons = true
+								}
+							}
+							if !isCons {
+								continue
+							}
+							okAssert := p.hasBool(ev.Idx, true, func(v Val) bool {
+								ex, ok := v.V.(*ssa.Extract)
+								if !ok || ex.Index != 1 {
+									return false
+								}
+								ta, ok := ex.Tuple.(*ssa.TypeAssert)
+								return ok && ta.CommaOk && typeName(ta.AssertedType) == iface
+							})
+							if !okAssert {
+								bad = "a " + shortType(recvT) + " is constructed at " + w.instrPos(ev.In) + " on a path without a successful check that the wrapped value implements " + iface
+							}
+						}
+					})
+					if over {
+						bad = "path cap in " + fnShort(g)
 					}
 				}
 				r.Check(bad == "" && nCons > 0, rule, construct, w.instrPos(in), fmt.Sprintf("%d constructions, all under a successful assertion", nCons), orStr(bad, "receiver type is never constructed"))
